@@ -280,7 +280,11 @@ def _materialize(files, names):
     import re
     import tempfile
 
+    import atexit
+    import shutil
+
     d = tempfile.mkdtemp(prefix="verif_replay_")
+    atexit.register(shutil.rmtree, d, ignore_errors=True)     # a replay is its own ordinary process: atexit runs
     for rel, text in files.items():
         text = re.sub(r"\b[NR]\d+\b", lambda m: names.get(m.group(0), m.group(0)), text)
         p = os.path.join(d, rel)
